@@ -12,6 +12,7 @@ mod chan_eid;
 mod chan_hex;
 mod chan_now;
 mod chan_ops;
+mod chan_sec;
 mod chan_time;
 
 fn mode_of_build() -> &'static str {
@@ -47,6 +48,8 @@ fn run_line(line: &str) -> String {
         "SCHED" => chan_now::sched(args),
         "VALIDATE" => chan_ops::validate(args),
         "OPS" => chan_ops::ops(args),
+        "IPPT" => chan_sec::ippt(args),
+        "BIB" => chan_sec::bib(args),
         "EID" => chan_eid::eid(args),
         "EIDDTN" => chan_eid::eiddtn(args),
         "EIDIPN" => chan_eid::eidipn(args),
